@@ -28,6 +28,10 @@ Muts == {<<"none", "p1", 1, "">>}
    \cup {<<"cycle", "p2", 1, w>> : w \in {"1", "2", "3", "2x"}}
    \* a stage that names a task AND a pipeline is a task stage (the task wins): naming its own pipeline is harmless
    \cup {<<"both", "p4", 1, "">>}
+   \* a stage that refers to nothing at all (with and without a name of its own)
+   \cup {<<"noref", "p4", 1, w>> : w \in {"named", "unnamed"}}
+   \* depends_on naming a stage by its DEFAULT name (the task's / the included pipeline's name): well formed
+   \cup {<<"defdep", "p4", 1, w>> : w \in {"task", "pipe"}}
 VARIABLE mut
 Init == mut \in Muts
 Next == UNCHANGED mut
@@ -41,6 +45,9 @@ Apply(m) ==
        [] k = "dup" -> upd("name", Base.pipes[p][1].name)
        [] k = "watcher" -> [Base EXCEPT !.wtask = "nosuch"]
        [] k = "both" -> [Base EXCEPT !.pipes["p4"][1].pipe = "p4"]
+       [] k = "noref" -> [Base EXCEPT !.pipes["p4"] = Append(@, St(IF m[4] = "named" THEN "z" ELSE "", "", "", {}))]
+       [] k = "defdep" -> (IF m[4] = "task" THEN [Base EXCEPT !.pipes["p4"] = <<St("", "t1", "", {}), St("k", "t2", "", {"t1"})>>]
+                                            ELSE [Base EXCEPT !.pipes["p4"] = <<St("", "", "p3", {}), St("k", "t2", "", {"p3"})>>])
        [] k = "defname" -> (CASE m[4] = "ok" -> [Base EXCEPT !.pipes["p4"][1].name = ""]                       \* called t1: no clash
                               [] m[4] = "both" -> [Base EXCEPT !.pipes["p4"] = <<St("", "t1", "", {}), St("", "t1", "", {})>>]
                               [] OTHER -> [Base EXCEPT !.pipes["p4"] = <<St("t2", "t1", "", {}), St("", "t2", "", {})>>])
@@ -71,5 +78,5 @@ WellFormed(c) ==
 Expected == WellFormed(Cfg)
 Emit == PrintT(<<"REF", ToJson([mut |-> mut, cfg |-> Cfg, wellformed |-> Expected])>>)
 \* sanity of the mutation table itself: only the unmutated configuration is well formed
-OnlyBaseWellFormed == Expected <=> (mut[1] \in {"none", "both"} \/ (mut[1] = "defname" /\ mut[4] = "ok"))
+OnlyBaseWellFormed == Expected <=> (mut[1] \in {"none", "both", "defdep"} \/ (mut[1] = "defname" /\ mut[4] = "ok"))
 =====================================================================
